@@ -95,6 +95,52 @@ def tie_history_case(pcfg, units, U, k, sf, spec, big):
     return viol, 2
 
 
+def session_full_runs(ctx, viol, dist):
+    """C02 for the program's own loop: the real CrackingSession.run (no quit) must print, as a multiset, the guesses of every
+    pre-terminal the queue hands out - also when grammar.txt lists one base structure twice with the same probability (two distinct
+    pre-terminals that look alike and come off the heap back to back)"""
+    from collections import Counter
+    import sched_session as ss
+    from props import C12
+    rng = ctx.rng
+    root = common.scratch_dir('rules')
+    sdir = common.scratch_dir('sess')
+    runs = 0
+    for i in range(ctx.scale(3, 12)):
+        if i == 0:
+            spec = {'terminals': {'D2': [['12', '0.5'], ['99', '0.25'], ['00', '0.25']], 'D1': [['1', '0.5'], ['2', '0.5']], 'O1': [['!', '0.5'], ['#', '0.5']],
+                                  'A3': [['abc', '0.5'], ['xyz', '0.5']], 'C3': [['LLL', '0.5'], ['ULL', '0.5']]},
+                    'grammar': [['A3D1', '0.25'], ['D2', '0.25'], ['D2', '0.25'], ['O1D1', '0.25']], 'omen_prob': [], 'prince': [], 'mode': 'dyadic', 'encoding': 'utf-8'}
+        else:
+            spec = gen_rulesets.gen_ruleset(rng, mode='dyadic', markov=False, max_structs=3, max_pos=2, max_groups=3, max_vals=2, allow_dup_struct=True)
+            if rng.random() < 0.7 and spec['grammar']:
+                k = rng.randrange(len(spec['grammar']))
+                spec['grammar'].insert(k, list(spec['grammar'][k]))        # the same line twice
+        d = common.write_ruleset(os.path.join(root, f"c02sess{i % 3}"), spec)
+        pcfg = common.load_grammar(d)
+        units = ss.units_of(pcfg)
+        if not (1 <= len(units) <= 120):
+            continue
+        want = Counter(l for u in units for l in u[2])
+        sf = os.path.join(sdir, f"c02sess_{i}.sav")
+        for ext in ('.sav', '.omn'):
+            if os.path.exists(sf[:-4] + ext):
+                os.remove(sf[:-4] + ext)
+        wit = {'spec': spec, 'history': 'session-full-run'}
+        try:
+            r = ss.run_session(pcfg, sf, C12.new_cfg(), False, 'm' * (sum(len(u[2]) + 2 for u in units) + 10), [])
+        except Exception as e:
+            viol.append({'property': 'C02', 'kind': 'session-raised', 'error': repr(e)[:200], 'witness': wit})
+            continue
+        runs += 1
+        got = Counter(r['out'])
+        if got != want:
+            viol.append({'property': 'C02', 'kind': 'session-output-multiset', 'missing': str(list((want - got).items())[:4]),
+                         'extra': str(list((got - want).items())[:4]), 'emitted': sum(got.values()), 'language': sum(want.values()), 'witness': wit})
+    dist['session_full_runs'] = runs
+    return runs
+
+
 def session_tie_histories(ctx, viol, dist):
     """C08 at the level of the whole session (CrackingSession.run, the .sav file written and read by the real code): rulesets with
     exact ties between pre-terminals of different base structures; the session is quit exactly when pre-terminal k has been popped
@@ -148,6 +194,38 @@ def session_tie_histories(ctx, viol, dist):
             vs, nr = tie_history_case(pcfg, units, U, k, sf, spec, big)
             viol += vs
             runs += nr
+    # "any point at which the user quits": also between two guesses of a Markov level - four-letter OMEN models (lists of three and
+    # four characters per context), quit before guess j for a dozen j per level, resumed; both sessions together = the whole stream
+    from props import C15 as _c15
+    for i in range(ctx.scale(2, 8)):
+        spec = C12.small_ruleset(rng, markov_pos=rng.choice([0, 1, 2]), wide=True)
+        d = common.write_ruleset(os.path.join(root, f"c08omen{i % 2}"), spec)
+        pcfg = common.load_grammar(d)
+        units = ss.units_of(pcfg)
+        if not C12.distinct_probs(units):
+            continue
+        full = [l for u in units for l in u[2]]
+        big = 'm' * (len(full) + 2 * len(units) + 8)
+        for ui in [k for k, u in enumerate(units) if u[0] == 'm' and len(u[2]) >= 2 and k != len(units) - 1]:
+            n = len(units[ui][2])
+            for j in sorted({0, n - 1, n // 2} | {rng.randrange(n) for _ in range(ctx.scale(8, 30))}):
+                sf = os.path.join(sdir, f"c08omen_{i}_{ui}_{j}.sav")
+                for ext in ('.sav', '.omn'):
+                    if os.path.exists(sf[:-4] + ext):
+                        os.remove(sf[:-4] + ext)
+                wit = {'spec': spec, 'unit': ui, 'guess': j, 'history': 'quit-in-markov-level'}
+                try:
+                    a = ss.run_session(pcfg, sf, C12.new_cfg(), False, _c15.quit_schedule(units, ui, j), [('line', 'q', False)])
+                    cfg = configparser.ConfigParser()
+                    cfg.read(sf)
+                    b = ss.run_session(pcfg, sf, cfg, True, big, []) if a['state'] == 'exited' else {'out': []}
+                except Exception as e:
+                    viol.append({'property': 'C08', 'kind': 'session-raised', 'error': repr(e)[:200], 'witness': wit})
+                    continue
+                runs += 2
+                if a['state'] == 'exited' and a['out'] + b['out'] != full:
+                    viol.append({'property': 'C08', 'kind': 'resume-lost-guesses' if len(a['out']) + len(b['out']) < len(full) else 'illegal-repeat',
+                                 'first': len(a['out']), 'resumed': len(b['out']), 'total': len(full), 'witness': wit})
     dist['session_tie_runs'] = dist.get('session_tie_runs', 0) + runs
     return runs
 
@@ -223,6 +301,8 @@ def run(ctx, focus):
         disagreements.append({'stream': 'pq', 'detail': 'driver does not build'})
         fp_info = {}
     cli_runs = 0
+    if focus == 'C02':
+        cases += session_full_runs(ctx, violations, dist)
     if focus == 'C08':
         # the whole resume path of the program: a session started with option flags writes its save file; `--load` (flags taken
         # from the save file) must continue the same run - from the initial save that is the whole stream again
@@ -263,6 +343,11 @@ def run(ctx, focus):
         violations += vs_cli
         cases += 1
         dist['cli_interleaved'] = info_cli
+        # "any point at which the user quits" includes the middle of a Markov level
+        vs_cli, info_cli = _c15.cli_interleaved_sessions('C08', 'c08auditm', _c15.big_markov_spec())
+        violations += vs_cli
+        cases += 1
+        dist['cli_interleaved_markov'] = info_cli
     return {
         'evaluations': cases, 'distinct_nontrivial': nontrivial, 'traces': cases + cuts,
         'rule': 'rulesets from gen_rulesets (dyadic / float / tiny-magnitude probabilities, repeated variable types, '
@@ -282,7 +367,37 @@ def replay(ctx, payload, focus):
     if w and 'cli_history' in w:
         from props import C15 as _c15
         common.use_impl()
-        return _c15.cli_interleaved_sessions('C08', 'c08audit', _c15.big_plain_spec())[0]
+        mk = w.get('spec_kind') == 'c08auditm'
+        return _c15.cli_interleaved_sessions('C08', 'c08auditm' if mk else 'c08audit', _c15.big_markov_spec() if mk else _c15.big_plain_spec())[0]
+    if w and w.get('history') == 'session-full-run':
+        from collections import Counter
+        import sched_session as ss
+        from props import C12
+        common.use_impl()
+        d = common.write_ruleset(os.path.join(common.scratch_dir('rules'), 'replay02sess'), w['spec'])
+        pcfg = common.load_grammar(d)
+        units = ss.units_of(pcfg)
+        sf = os.path.join(common.scratch_dir('sess'), 'replay02sess.sav')
+        r = ss.run_session(pcfg, sf, C12.new_cfg(), False, 'm' * (sum(len(u[2]) + 2 for u in units) + 10), [])
+        return [] if Counter(r['out']) == Counter(l for u in units for l in u[2]) else [{'kind': 'session-output-multiset'}]
+    if w and w.get('history') == 'quit-in-markov-level':
+        import configparser
+        import sched_session as ss
+        from props import C12, C15 as _c15
+        common.use_impl()
+        d = common.write_ruleset(os.path.join(common.scratch_dir('rules'), 'replay08omen'), w['spec'])
+        pcfg = common.load_grammar(d)
+        units = ss.units_of(pcfg)
+        full = [l for u in units for l in u[2]]
+        sf = os.path.join(common.scratch_dir('sess'), 'replay08omen.sav')
+        for ext in ('.sav', '.omn'):
+            if os.path.exists(sf[:-4] + ext):
+                os.remove(sf[:-4] + ext)
+        a = ss.run_session(pcfg, sf, C12.new_cfg(), False, _c15.quit_schedule(units, w['unit'], w['guess']), [('line', 'q', False)])
+        cfg = configparser.ConfigParser()
+        cfg.read(sf)
+        b = ss.run_session(pcfg, sf, cfg, True, 'm' * (len(full) + 2 * len(units) + 8), []) if a['state'] == 'exited' else {'out': []}
+        return [] if a['state'] != 'exited' or a['out'] + b['out'] == full else [{'kind': 'resume-lost-guesses', 'first': len(a['out']), 'resumed': len(b['out'])}]
     if w and w.get('history') == 'session-tie':
         import sched_session as ss
         common.use_impl()
